@@ -19,12 +19,12 @@ RULE = ('case = generated configuration S and a rewriting S\' composed of 1-4 co
         'rewriting is first validated on the reference model (equal computation descriptors for corresponding tasks). oracle: data_path relative to the data '
         'dir (name_for_persistence for in-memory tasks) of corresponding tasks must be equal; over both chains descriptor -> location must be a function. '
         'non-trivial = pair with >=2 applied rewriting kinds or crossing interpreters; distinct = hash(S files, root, applied rewritings)')
-REQUIRED = ['pairs', 'tasks_compared', 'rw_rename', 'rw_wrap', 'rw_permute', 'rw_module', 'rw_to_context', 'rw_global_vars', 'cross_interpreter_pairs',
+REQUIRED = ['pairs', 'tasks_compared', 'rw_rename', 'rw_wrap', 'rw_permute', 'rw_module', 'rw_to_context', 'rw_global_vars', 'rw_objects', 'cross_interpreter_pairs',
             'set_object_pairs']
 ASSUMPTIONS = ['equality of parameter values is Python == on JSON-like values (1 is never rewritten to 1.0 or True)',
                'name mode is out of scope (the documentation itself says config names matter there)']
 BUDGET = {'quick': 75, 'thorough': 1500}
-KINDS = ['rename', 'wrap', 'permute', 'module', 'to_context', 'global_vars']
+KINDS = ['rename', 'wrap', 'permute', 'module', 'to_context', 'global_vars', 'objects']
 
 
 def classify(ref, name, desc_list):
